@@ -339,19 +339,26 @@ func (x *Exec) gammaQuery(e E) *query.Query {
 type fpVisitor struct{ sb *strings.Builder }
 
 func (v fpVisitor) VisitUnaryCriteria(c *query.UnaryCriteria) interface{} {
-	val := "?"
-	switch t := c.Value.(type) {
-	case func(*document.Document) bool:
-		val = "fn"
-	default:
-		if query.IsField(t) {
-			val = "field"
-		} else {
-			val = fmt.Sprintf("%T:%#v", t, t)
-		}
-	}
-	fmt.Fprintf(v.sb, "(u %d %q %s)", c.OpType, c.Field, val)
+	fmt.Fprintf(v.sb, "(u %d %q %s)", c.OpType, c.Field, fpValue(c.Value))
 	return nil
+}
+
+// fpValue renders an operand without pointer addresses.
+func fpValue(x interface{}) string {
+	switch t := x.(type) {
+	case func(*document.Document) bool:
+		return "fn"
+	case []interface{}:
+		parts := make([]string, 0, len(t))
+		for _, e := range t {
+			parts = append(parts, fpValue(e))
+		}
+		return "[" + strings.Join(parts, ",") + "]"
+	}
+	if query.IsField(x) {
+		return "field"
+	}
+	return fmt.Sprintf("%T:%#v", x, x)
 }
 func (v fpVisitor) VisitNotCriteria(c *query.NotCriteria) interface{} {
 	v.sb.WriteString("(not ")
